@@ -102,3 +102,44 @@ reg["C14"] = {"level": "model_checking", "explanation": EXPL + "; the search sta
     "outside": ["LIKE collation / '_' and '%' inside client patterns", "JWT signature verification of the cursor token (api layer)"],
     "harnesses": store(["VH_R_SearchPromises", "VH_R_SearchSchedules"], ["C14:"]) + [dict(h, reach=["two-pages"]) for h in store(["VH_R_TwoPages"], ["C14:"])]
                  + co(["VH_P_Search"], ["C14:", "C01:", "C04:"], opts=SEARCHOPT, optsT=SEARCHOPT_T, reach=REACH_P)}
+
+GRPC = "internal/app/subsystems/api/grpc"
+E2EOPT = {"slots.callbacks": 1, "slots.locks": 1, "slots.schedules": 1, "slots.promises": 1, "slots.tasks": 1, "faults": 1}
+GRPC_H = ["ReadPromise", "CreatePromise", "CreatePromiseAndTask", "ResolvePromise", "RejectPromise", "CancelPromise", "SearchPromises", "CreateCallback", "CreateSubscription",
+          "ClaimTask", "CompleteTask", "HeartbeatTasks", "AcquireLock", "ReleaseLock", "HeartbeatLocks", "ReadSchedule", "SearchSchedules", "CreateSchedule", "DeleteSchedule"]
+def grpc(labels, names=GRPC_H):
+    return [{"name": "VH_G_" + n, "pkg": GRPC, "labels": labels, "opts": dict(E2EOPT), "reach": ["reply", "kernel-error"]} for n in names]
+X_H = ["ReadPromise", "SearchPromises", "CreatePromise", "CreatePromiseAndTask", "CompletePromise", "CreateCallback", "CreateSubscription", "ReadSchedule", "SearchSchedules",
+       "CreateSchedule", "DeleteSchedule", "AcquireLock", "ReleaseLock", "HeartbeatLocks", "ClaimTask", "CompleteTask", "HeartbeatTasks", "Echo"]
+XOPT = {"slots.callbacks": 1, "slots.locks": 1, "slots.schedules": 1, "slots.promises": 2, "slots.tasks": 2, "faults": 2}
+XOPT_Q = dict(XOPT); XOPT_Q["faults"] = 1
+for n in X_H:
+    REACH_P["VH_X_" + n] = ["response"] if n == "Echo" else ["response", "error"]
+FRONT_ASSUME = ["protocol parsing (protobuf / gin binding / encoding-json) is outside: the handler receives an arbitrary value of the request struct type, every optional sub-message nil or present",
+    "the kernel double runs the real request coroutine under havoc semantics at the point where System.AddOnRequest would (the goroutine hand-over is not modelled)",
+    "jwt: Decode of a client token forks {error, validly signed token with arbitrary claims} because the signing key is a constant in the source"]
+reg["C12"] = {"level": "model_checking", "explanation": "per-path callback/return counting by bounded symbolic execution: the kernel API answers a refused submission exactly once and stores an accepted one (symbolic occupancy and shutdown flag); each of the 18 request coroutines returns exactly one of (response, *t_api.Error) on every path under store/router/sender failures (budget 2) from an arbitrary invariant-satisfying database and never panics; every gRPC call issues at most one kernel request and produces exactly one reply or error",
+    "assumptions": ASSUME_CO + FRONT_ASSUME,
+    "outside": ["everything the statement says about concurrent client goroutines, Signal goroutines, the race between Shutdown and EnqueueSQE and shutdown ordering: goroutine/channel interleavings are not encoded by this engine (seeded changes C12-A and C12-B live there and are not detectable by this check)", "System.Tick / AddOnRequest wrapper with the real gocoro scheduler"],
+    "harnesses": [{"name": "VH_C12_EnqueueSQE", "pkg": "internal/api", "labels": ["C12:"], "reach": ["accepted", "queue-full", "shutting-down"]}]
+                 + co(["VH_X_" + n for n in X_H], ["C12:"], opts=XOPT_Q, optsT=XOPT, reach=REACH_P)
+                 + grpc(["C12:", "C15:exactly"], ["ReleaseLock", "ClaimTask", "CreateCallback", "CreatePromiseAndTask"])}
+reg["C13"] = {"level": "other", "explanation": "panic-reachability queries decided by SMT: every gRPC handler runs end to end on a fully symbolic request (real handler -> real api.Process -> real request coroutine under havoc semantics and store faults -> real reply); the decoders of stored client data (router tag source, sender receiver resolution) run on arbitrary stored bytes; every background coroutine runs from an arbitrary invariant-satisfying database. Any reachable Go panic / failed util.Assert / nil dereference / index error on any path is a violation; requests refused by the front end must not have reached the kernel",
+    "assumptions": ASSUME_CO + FRONT_ASSUME,
+    "outside": ["the HTTP front end (gin routing/binding/validator) is not executed symbolically; its handlers share api.Process, the api-level validation functions and the coroutines that are covered", "HTTP/JSON/protobuf parsing of hostile bytes, oversized bodies", "stalls of the kernel loop, liveness of a real process (seeded change C13-A is an unanswered sender completion, a goroutine-level wedge outside this engine)", "poll / http plugin decoders are covered by C18/C19 harnesses and the native demonstrations"],
+    "harnesses": grpc(["C13:"]) + [{"name": "VH_RT_Tag", "pkg": "internal/app/subsystems/aio/router", "labels": ["C19:"], "reach": ["no-tag", "plain-string", "json-receiver", "json-not-a-receiver"]},
+                 {"name": "VH_SN_Process", "pkg": "internal/app/subsystems/aio/sender", "labels": ["C19:"], "reach": ["delivered", "failed-hand-off"]}]
+                 + co(["VH_P_TimeoutSweep"], ["C11:sweep-returns"], reach=REACH_P) + co(["VH_T_TimeoutSweep"], ["C11:sweep-returns"], opts=TASKOPT, optsT=TASKOPT_T, reach=REACH_P)
+                 + co(["VH_L_TimeoutSweep"], ["C11:sweep-returns"], opts=LOCKOPT, optsT=LOCKOPT_T, reach=REACH_P) + co(["VH_S_Fire"], ["C11:sweep-returns"], opts=SCHEDOPT, optsT=SCHEDOPT_T, reach=REACH_P)
+                 + co(["VH_D_Enqueue"], ["C11:sweep-returns"], opts=DISPOPT, optsT=DISPOPT_T, reach=REACH_P)}
+reg["C15"] = {"level": "other", "explanation": "table totality and flag/code agreement decided by SMT: all status constants are read from the current source and String(), IsSuccessful(), the gRPC code() mapping are executed on each (no panic, code of its class, HTTP code in 200..599); every gRPC handler runs end to end with the real coroutine producing the kernel outcome, and the reply is compared with it: exactly one of reply/error, error code = mapped code of the kernel status, outcome flags (acquired, released, claimed, completed, noop) agree with the kernel status, request fields are copied into the kernel request",
+    "assumptions": ASSUME_CO + FRONT_ASSUME,
+    "outside": ["the HTTP front end (gin) and therefore 'equivalent HTTP and gRPC requests are translated into the same kernel request' (seeded change C15-B crosses two tag maps in the gRPC handler and IS covered by the request-fields-copied obligation)", "protobuf marshalling, net/http turning a handler panic into a dropped connection", "the nil-cause branch of api.ServerError for 503-family errors is reached only through kernel queue-full/shutdown errors, which the kernel double does not produce (seeded change C15-A)"],
+    "harnesses": [{"name": "VH_G_StatusTables", "pkg": GRPC, "labels": ["C15:"], "reach": ["done"]}] + grpc(["C15:", "C20:"])}
+reg["C19"] = {"level": "other", "explanation": "bounded symbolic execution of the real router tag source / RouterWorker.Process on an arbitrary tag value and of the real SenderWorker.Process on an arbitrary stored receiver with recording plugins: each case of the statement (absent tag, plain string, JSON receiver object, other JSON; logical name -> configured target, URL scheme, unknown address -> failed hand-off; body names the task and links / the completed promise; exactly one outcome per hand-off) is an obligation decided by SMT; the dispatched links are checked in the dispatch harness",
+    "assumptions": COMMON_ASSUME + ["encoding/json contracts: Valid is an uninterpreted predicate, Decode forks {error, null -> nil, value with arbitrary fields}; net/url.Parse is an uninterpreted scheme/host/path projection; the marshalled body is inspected as the Go value handed to json.Marshal"],
+    "outside": ["byte-level JSON of the body", "the http plugin's POST and the poll plugin's delivery (C18)", "DisallowUnknownFields strictness of the real decoder (seeded change C19-B replaces the strict decoder; the json stub does not distinguish the two decoders)"],
+    "harnesses": [{"name": "VH_RT_Tag", "pkg": "internal/app/subsystems/aio/router", "labels": ["C19:"], "reach": ["no-tag", "plain-string", "json-receiver", "json-not-a-receiver"]},
+                 {"name": "VH_SN_Process", "pkg": "internal/app/subsystems/aio/sender", "labels": ["C19:"], "reach": ["delivered", "failed-hand-off"]}]
+                 + co(["VH_D_Enqueue"], ["C08:message-names", "C08:dispatches-only"], opts=DISPOPT, optsT=DISPOPT_T, reach=REACH_P)
+                 + co(["VH_D_CreateRouted"], ["C08:invocation-task-addressed-as-routed"], opts=ROUTEOPT, reach=REACH_P)}
